@@ -12,3 +12,4 @@ def run(ck):
     filt.r6_acceptance_domain(ck, P)
     filt.r8_coefficient_product_width(ck, P, 'C18-R8')
     filt.r9_degenerate_phases(ck, P)
+    filt.r10_touching_supports(ck, P)
